@@ -11,7 +11,7 @@ NCPU = os.cpu_count() or 4
 
 GOENV = dict(os.environ, GOFLAGS="-mod=mod", GOPROXY="off", GOSUMDB="off", GOTOOLCHAIN="local", GONOSUMDB="*", GONOSUMCHECK="1")
 ALLOWED_AXIOMS = {"propext", "Classical.choice", "Quot.sound"}
-FORBIDDEN = re.compile(r"\b(sorry|admit|native_decide|bv_decide|implemented_by)\b|^\s*axiom\s|unsafe\s|maxHeartbeats\s+0")
+FORBIDDEN = re.compile(r"\b(sorry|native_decide|bv_decide|implemented_by)\b|(?<![.\w])admit(?!\s*:)(?!\w)|^\s*axiom\s|unsafe\s|maxHeartbeats\s+0")
 
 
 def sh(cmd, cwd=None, env=None, timeout=None, input=None):
